@@ -285,6 +285,30 @@ func runC11(c *Ctx) {
 			R.Ob(c.siteKey(in, "NOTIFY element is upper-cased"), c.P.InstrPos(in), strings.Contains(d, "strings.ToUpper("), "NOTIFY element stored as "+d+": a lower-case keyword of a well-formed parameter is refused")
 		})
 		R.Ob("(*Conn).handleRcpt/NOTIFY elements collected", c.P.Pos(f.Pos()), n >= 1, "no store of a NOTIFY element found")
+		// the list is cut at every comma and empty elements are kept, so "SUCCESS,", ",FAILURE" and "A,,B" reach
+		// checkNotifySet with an element that is no keyword and are refused
+		split, lossy := false, ""
+		allInstrs(f, func(in ssa.Instruction) {
+			cc := callCommon(in)
+			if cc == nil {
+				return
+			}
+			g := staticCallee(cc)
+			if g == nil || len(cc.Args) == 0 || describe(cc.Args[0]) != "next#2" {
+				return
+			}
+			switch qualFuncName(g) {
+			case "strings.Split":
+				if k, ok := constString(cc.Args[1]); ok && k == "," && keyOf(c, in, tags["(*Conn).handleRcpt"]) == "NOTIFY" {
+					split = true
+				}
+			case "strings.FieldsFunc", "strings.Fields", "strings.SplitN", "strings.SplitAfter":
+				if keyOf(c, in, tags["(*Conn).handleRcpt"]) == "NOTIFY" {
+					lossy = qualFuncName(g)
+				}
+			}
+		})
+		R.Ob("(*Conn).handleRcpt/NOTIFY list split keeps empty elements", c.P.Pos(f.Pos()), split && lossy == "", "the NOTIFY value is not cut with strings.Split(value, \",\") ("+lossy+"): empty list elements (leading, trailing or doubled comma) disappear instead of being refused")
 	}
 	if f := c.A.Func("checkNotifySet"); f != nil {
 		// returns nil only if every element equals one of the four constants
